@@ -120,10 +120,14 @@ class FmtStr(object):
                     if conv in 'sr' and (width or flags):
                         raise Unsupported("padded %s of symbolic int")
                     toks.append(Dec(a.t, width, '0' in flags))
-                elif conv == 's' and isinstance(a, (SStr, FmtStr)):
+                elif conv in 'sr' and isinstance(a, (SStr, FmtStr)):
                     if width or flags:
                         raise Unsupported("padded %s of symbolic text")
+                    if conv == 'r':
+                        toks.append(Lit("'"))
                     toks.extend(FmtStr.lift(a).tokens)
+                    if conv == 'r':
+                        toks.append(Lit("'"))
                 else:
                     raise Unsupported("%%%s of %r" % (conv, a))
             else:
@@ -174,7 +178,38 @@ def fmt_binop(interp, op, a, b):
     raise Unsupported("operator %s on token strings" % type(op).__name__)
 
 
+def _plain(v):
+    """The concrete text of a value if it has one (str/bytes, or a token string of literals only)."""
+    if isinstance(v, (str, bytes)):
+        return v
+    if isinstance(v, FmtStr):
+        if all(isinstance(t, Lit) for t in v.tokens):
+            text = ''.join(t.text for t in v.tokens)
+            return text if v.pytype is str else text.encode('latin-1')
+    return None
+
+
 def fmt_compare(interp, t, a, b):
+    import ast
+    if t in (ast.Eq, ast.NotEq):
+        pa, pb = _plain(a), _plain(b)
+        if pa is not None and pb is not None:
+            r = (pa == pb)
+            return r if t is ast.Eq else not r
+        # a token string with a number in it against a text without digits (or of another kind) cannot be equal
+        other = pb if pa is None else pa
+        sym = a if pa is None else b
+        if other is not None and isinstance(sym, FmtStr):
+            if type(other) is not sym.pytype:
+                return t is ast.NotEq
+            lits = ''.join(x.text for x in sym.tokens if isinstance(x, Lit))
+            otext = other if isinstance(other, str) else other.decode('latin-1')
+            if any(isinstance(x, Dec) for x in sym.tokens) and not any(ch.isdigit() for ch in otext):
+                return t is ast.NotEq
+            if any(ch not in otext for ch in lits):
+                return t is ast.NotEq
+        if not isinstance(a, (str, bytes, FmtStr)) or not isinstance(b, (str, bytes, FmtStr)):
+            return t is ast.NotEq
     raise Unsupported("comparison of token strings")
 
 
@@ -229,6 +264,10 @@ _STR_METHODS = {
 }
 
 
+def _unsupported(msg):
+    raise Unsupported(msg)
+
+
 def sym_getattr(interp, obj, name):
     from .interp import BoundModel
     if isinstance(obj, SStr):
@@ -239,6 +278,40 @@ def sym_getattr(interp, obj, name):
             raise Unsupported("method %s of symbolic %s" % (name, obj.pytype.__name__))
         raise AttributeError("%r object has no attribute %r" % (obj.pytype.__name__, name))
     if isinstance(obj, FmtStr):
+        if name in ('startswith', 'endswith'):
+            def sw(i, o, prefix, *rest):
+                if rest or not isinstance(prefix, (str, bytes)):
+                    raise Unsupported("%s on a token string with offsets / non-literal argument" % name)
+                p = prefix if isinstance(prefix, str) else prefix.decode('latin-1')
+                toks = o.tokens if name == 'startswith' else o.tokens[::-1]
+                if not p:
+                    return True
+                if toks and isinstance(toks[0], Lit):
+                    t = toks[0].text
+                    if name == 'startswith':
+                        if len(t) >= len(p):
+                            return t.startswith(p)
+                        if not p.startswith(t):
+                            return False
+                    else:
+                        if len(t) >= len(p):
+                            return t.endswith(p)
+                        if not p.endswith(t):
+                            return False
+                    raise Unsupported("%s spanning several tokens" % name)
+                if toks and isinstance(toks[0], Dec):
+                    first = p[0] if name == 'startswith' else p[-1]
+                    if not first.isdigit() and first != '-':
+                        return False
+                    if first == '-' and name == 'startswith':
+                        if toks[0].zero or i.ctx.branch(toks[0].term >= 0):
+                            return False
+                        return len(p) == 1 or _unsupported("startswith beyond the sign of a number token")
+                    raise Unsupported("%s against a number token" % name)
+                if not toks:
+                    return False
+                raise Unsupported("%s on token %r" % (name, toks[0]))
+            return BoundModel(interp, sw, obj, name)
         if name == 'encode' and obj.pytype is str:
             return BoundModel(interp, lambda i, o, *a, **k: FmtStr(o.tokens, bytes), obj, name)
         if name == 'decode' and obj.pytype is bytes:
